@@ -8,17 +8,9 @@ use cel_interpreter::{Context, Program};
 /// Returns (model request, implementation response).
 pub fn run_program(src: &str, spec: &CtxSpec) -> (String, String) {
     let s = src.to_string();
-    let parsed = guarded({
-        let s = s.clone();
-        move || match cel_parser::Parser::default().parse(&s) {
-            Ok(e) => sx_expr(&e),
-            Err(_) => "(reject)".to_string(),
-        }
-    });
-    if parsed == "(reject)" || parsed == "(crash)" {
-        return (format!("(compile-failed {})", parsed), parsed);
-    }
-    let req = format!("(eval {} {})", spec.wire(), parsed);
+    // The model compiles the source itself (its own lexer, parser and macro expansion), so a
+    // change of the real parser shows up here as well as one of the evaluator.
+    let req = format!("(evalsrc {} {})", spec.wire(), sx_str(src));
     let _ = take_log();
     let spec2 = spec.clone();
     let imp = guarded(move || {
@@ -29,7 +21,11 @@ pub fn run_program(src: &str, spec: &CtxSpec) -> (String, String) {
         }
     });
     let log = take_log();
-    let imp = format!("(res {} (log{}{}))", imp, if log.is_empty() { "" } else { " " }, log.join(" "));
+    let imp = if imp == "(reject)" {
+        imp
+    } else {
+        format!("(res {} (log{}{}))", imp, if log.is_empty() { "" } else { " " }, log.join(" "))
+    };
     (req, imp)
 }
 
